@@ -157,12 +157,13 @@ theorem rowBytes_packed (bpp : Nat) (hb : okBpp bpp) (w : Nat) : (w + ipb bpp - 
   rcases ipb_cases bpp hb with ⟨rfl, h⟩ | ⟨rfl, h⟩ | ⟨rfl, h⟩ <;> rw [h] <;> omega
 
 theorem packed_rt (bpp : Nat) (hb : okBpp bpp) (s : Rows) (w : Nat) (hr : Rect s w)
-    (hw : w * bpp < 65536) (hh : s.length < 65536) (ha : ∀ r ∈ s, ∀ a ∈ r, a < 2 ^ bpp) :
-    unpackPacked bpp (packPacked bpp s) = s := by
+    (hw : w * bpp < 65536) (hh : s.length < 65536) (ha : ∀ r ∈ s, ∀ a ∈ r, a < 2 ^ bpp) (tail : Bytes) :
+    unpackPacked bpp (packPacked bpp s ++ tail) = s := by
   have hbpos : 0 < bpp := by rcases hb with rfl | rfl | rfl <;> decide
   unfold unpackPacked packPacked
-  rw [hr.width, Sprite.height, List.append_assoc, rdU16_0 _ hw, rdU16_2 _ _ hh, drop4]
-  simp only []
+  rw [hr.width, Sprite.height]
+  simp only [List.append_assoc]
+  rw [rdU16_0 _ hw, rdU16_2 _ _ hh, drop4]
   rw [Nat.mul_div_cancel _ hbpos, List.flatMap_def]
   have hlen : ∀ r ∈ s.map (packRow bpp), r.length = (w * bpp + 7) / 8 := by
     intro r hr'
@@ -170,7 +171,7 @@ theorem packed_rt (bpp : Nat) (hb : okBpp bpp) (s : Rows) (w : Nat) (hr : Rect s
     rw [length_packRow, hr.rows row hrow, rowBytes_packed bpp hb]
   have hfl := length_flatten_uniform _ _ hlen
   rw [List.length_map] at hfl
-  rw [List.take_of_length_le (by rw [hfl, Nat.mul_comm])]
+  rw [List.take_left' (by rw [hfl, Nat.mul_comm])]
   have := chunksN_flatten _ _ hlen []
   rw [List.append_nil, List.length_map] at this
   rw [this, List.map_map]
@@ -296,15 +297,16 @@ theorem interlaced_unpack (n : Nat) (s : Rows) (w : Nat) (hr : ∀ r ∈ s, r.le
   rw [← this, row_rt 1 okBpp_one]
 
 theorem planed_rt (n : Nat) (hn : okPlanes n) (s : Rows) (w : Nat) (hr : Rect s w)
-    (hw : w < 65536) (hh : s.length < 65536) (ha : ∀ r ∈ s, ∀ a ∈ r, a < 2 ^ n) :
-    unpackPlaned n (packPlaned n s) = s := by
+    (hw : w < 65536) (hh : s.length < 65536) (ha : ∀ r ∈ s, ∀ a ∈ r, a < 2 ^ n) (tail : Bytes) :
+    unpackPlaned n (packPlaned n s ++ tail) = s := by
   unfold unpackPlaned packPlaned
-  rw [hr.width, Sprite.height, List.append_assoc, rdU16_0 _ hw, rdU16_2 _ _ hh, drop4]
-  simp only []
+  rw [hr.width, Sprite.height]
+  simp only [List.append_assoc]
+  rw [rdU16_0 _ hw, rdU16_2 _ _ hh, drop4]
   have hlen := interlaced_rows n s w hr.rows
   have hfl := length_flatten_uniform _ _ hlen
   rw [interlaced_len] at hfl
-  rw [List.take_of_length_le (by rw [hfl])]
+  rw [List.take_left' (by rw [hfl])]
   have h1 := chunksN_flatten _ _ hlen []
   rw [List.append_nil, interlaced_len] at h1
   rw [h1, interlaced_unpack n s w hr.rows, List.flatMap_def]
@@ -323,17 +325,18 @@ open PcbV.Draw PcbV.Viewport
 /-! ### Tandy6SpriteBuilder -/
 
 theorem tandy6_rt (n : Nat) (hn : okPlanes n) (s : Rows) (w : Nat) (hr : Rect s w)
-    (hw : w < 65536) (heven : w % 2 = 0) (hh : s.length < 65536) (ha : ∀ r ∈ s, ∀ a ∈ r, a < 2 ^ n) :
-    unpackTandy6 n (packTandy6 n s) = s := by
-  have key : u16 (rdU16 (packTandy6 n s) 0 * 2) ++ (packTandy6 n s).drop 2 = packPlaned n s := by
+    (hw : w < 65536) (heven : w % 2 = 0) (hh : s.length < 65536) (ha : ∀ r ∈ s, ∀ a ∈ r, a < 2 ^ n) (tail : Bytes) :
+    unpackTandy6 n (packTandy6 n s ++ tail) = s := by
+  have key : u16 (rdU16 (packTandy6 n s ++ tail) 0 * 2) ++ (packTandy6 n s ++ tail).drop 2 =
+      packPlaned n s ++ tail := by
     unfold packTandy6 packPlaned
-    rw [hr.width, rdU16_0 _ (by omega)]
+    rw [hr.width, List.append_assoc, rdU16_0 _ (by omega)]
     have e : w / 2 * 2 = w := by omega
     rw [e]
     simp [u16]
   unfold unpackTandy6
   rw [key]
-  exact planed_rt n hn s w hr hw hh ha
+  exact planed_rt n hn s w hr hw hh ha tail
 
 /-! ### GET / PUT on a page -/
 
@@ -389,14 +392,15 @@ def supported : Builder → Prop
   | .planed n => okPlanes n
   | .tandy6 n => okPlanes n
 
-theorem builder_rt (b : Builder) (hb : supported b) (s : Rows) (w : Nat) (h : b.admits s w) :
-    b.unpack (b.pack s) = s := by
+/-- `unpack` reads only the bytes its size record demands: whatever follows the record in the array is ignored -/
+theorem builder_rt (b : Builder) (hb : supported b) (s : Rows) (w : Nat) (h : b.admits s w) (tail : Bytes) :
+    b.unpack (b.pack s ++ tail) = s := by
   obtain ⟨hw, hh, hh', hrows, hattr, hsz⟩ := h
   have hr : Rect s w := ⟨hw, hh, hrows⟩
   match b, hb, hattr, hsz with
-  | .packed bpp, hb, hattr, hsz => exact packed_rt bpp hb s w hr hsz hh' hattr
-  | .planed n, hb, hattr, hsz => exact planed_rt n hb s w hr hsz hh' hattr
-  | .tandy6 n, hb, hattr, hsz => exact tandy6_rt n hb s w hr hsz.1 hsz.2 hh' hattr
+  | .packed bpp, hb, hattr, hsz => exact packed_rt bpp hb s w hr hsz hh' hattr tail
+  | .planed n, hb, hattr, hsz => exact planed_rt n hb s w hr hsz hh' hattr tail
+  | .tandy6 n, hb, hattr, hsz => exact tandy6_rt n hb s w hr hsz.1 hsz.2 hh' hattr tail
 
 theorem supported_bpp (b : Builder) (hb : supported b) : 1 ≤ b.bpp ∧ b.bpp ≤ 4 := by
   match b, hb with
